@@ -54,7 +54,11 @@ def values_c03(ast, tier):
             _TP += [numpy.array([1, 2]), numpy.int64(3), numpy.str_('s')]
         except ImportError:
             pass
-    return e1.values_for(ast, tier) + _TP
+    return e1.values_for(ast, tier) + _TP + EXTRA_DATA
+
+
+# strings that make a standard-library constructor fail with something other than its usual error class
+EXTRA_DATA = ['a{4294967296}', b'a{4294967296}', '(' * 3, '1' * 5000]
 
 
 def walk(node, ErrorNode, path='$'):
@@ -104,6 +108,13 @@ def judge(ctx, ast, sp, T, vi, v):
                                  'conv': type(conv).__name__, 'leaves': sorted(e1.leaves_of(ast))[:4]},
                            f"{desc}: try_convert {'returned' if fast == 'ok' else 'raised ParseInterrupt'} but collect_errors "
                            f"returned {core.srepr(node, 120)}", e1.cell_desc(ast, sp, vi, v), cost)
+        return
+    if fast.startswith('raw:') != diag.startswith('raw:') and 'RecursionError' not in fast + diag and 'MemoryError' not in fast + diag:
+        # one pass deals with the situation (rejects, or accepts), the other lets an exception through: the passes disagree
+        core.add_violation(res, {'kind': 'one_pass_lets_exception_through', 'fast': fast, 'diag': diag, 'root': root,
+                                 'conv': type(conv).__name__, 'leaves': sorted(e1.leaves_of(ast))[:4]},
+                           f"{desc}: try_convert -> {fast}, collect_errors -> {diag} {core.srepr(node, 80) if node is not None else ''}",
+                           e1.cell_desc(ast, sp, vi, v), cost)
         return
     if node is not None:
         for problem in walk(node, ErrorNode):
